@@ -92,3 +92,30 @@ class ScriptProc(Process):
 
     def on_timer(self, timer_name: str, ctx: Context):
         self._handle([3, _num(timer_name)], ctx)
+
+
+class ScriptProcOwn(ScriptProc):
+    """The same process with its own save/restore (what a process with large or unpicklable members does): the state
+    is a JSON string, and restoring REWRITES the containers in place instead of rebinding the attributes."""
+
+    def __init__(self, spec_json: str):
+        super().__init__(spec_json)
+        self._cnt = [0]
+        self._hist = []
+
+    # `_idx` lives in a one-element list, so that in-place restoration is possible
+    @property
+    def _idx(self):
+        return self._cnt[0]
+
+    @_idx.setter
+    def _idx(self, v):
+        self._cnt[0] = v
+
+    def get_state(self) -> str:
+        return json.dumps({"idx": self._cnt[0], "hist": [[list(k), t] for (k, t) in self._hist]})
+
+    def set_state(self, state_encoded: str):
+        d = json.loads(state_encoded)
+        self._cnt[0] = d["idx"]
+        self._hist[:] = [(tuple(k), t) for (k, t) in d["hist"]]
